@@ -1,1 +1,486 @@
-fn main(){}
+//! mon_lichess — C19: Lichess bot-stream payloads decode to the data they carry.
+
+use std::str::FromStr;
+
+use inkayaku_board::Bitboard;
+use inkayaku_lichess_api::api::bot_event_response::BotEvent;
+use inkayaku_lichess_api::api::bot_game_state_response::BotGameState;
+use inkayaku_uci::UciMove;
+use monlib::{guarded, json, panic_sig, Args, Report, Value};
+use rand::rngs::StdRng;
+use rand::seq::SliceRandom;
+use rand::Rng;
+use refchess::gen;
+use refchess::*;
+
+/// Our own JSON document model and writer (key order and escaping under our control).
+#[derive(Clone, Debug)]
+enum J {
+    Null,
+    Bool(bool),
+    Num(u64),
+    Int(i64),
+    Str(String),
+    /// free text that may really carry JSON escapes (user names, chat text, titles, urls)
+    Text(String),
+    Obj(Vec<(String, J)>),
+}
+
+fn esc(rng: &mut StdRng, s: &str, fancy: bool) -> String {
+    let mut o = String::from("\"");
+    for c in s.chars() {
+        match c {
+            '"' => o.push_str("\\\""),
+            '\\' => o.push_str("\\\\"),
+            '\n' => o.push_str("\\n"),
+            '\t' => o.push_str("\\t"),
+            c if (c as u32) < 0x20 => o.push_str(&format!("\\u{:04x}", c as u32)),
+            c if fancy && !c.is_ascii() && rng.gen_bool(0.5) => {
+                let mut buf = [0u16; 2];
+                for u in c.encode_utf16(&mut buf) {
+                    o.push_str(&format!("\\u{:04x}", u));
+                }
+            }
+            c if fancy && c.is_ascii_alphabetic() && rng.gen_bool(0.05) => o.push_str(&format!("\\u{:04x}", c as u32)),
+            '/' if fancy && rng.gen_bool(0.3) => o.push_str("\\/"),
+            c => o.push(c),
+        }
+    }
+    o.push('"');
+    o
+}
+
+fn write(rng: &mut StdRng, j: &J, shuffle: bool, fancy: bool, out: &mut String) {
+    match j {
+        J::Null => out.push_str("null"),
+        J::Bool(b) => out.push_str(if *b { "true" } else { "false" }),
+        J::Num(n) => out.push_str(&n.to_string()),
+        J::Int(n) => out.push_str(&n.to_string()),
+        J::Str(s) => out.push_str(&esc(rng, s, fancy)),
+        J::Text(s) => out.push_str(&esc(rng, s, fancy)),
+        J::Obj(kv) => {
+            let mut kv: Vec<&(String, J)> = kv.iter().collect();
+            if shuffle {
+                kv.shuffle(rng);
+            }
+            out.push('{');
+            for (i, (k, v)) in kv.iter().enumerate() {
+                if i > 0 {
+                    out.push(',');
+                }
+                if fancy && rng.gen_bool(0.2) { out.push(' '); }
+                out.push_str(&esc(rng, k, false));
+                out.push(':');
+                if fancy && rng.gen_bool(0.2) { out.push(' '); }
+                write(rng, v, shuffle, fancy, out);
+            }
+            out.push('}');
+        }
+    }
+}
+
+macro_rules! opt {
+    ($rng:expr, $o:expr, $k:expr, $v:expr, $a:expr) => {{
+        let v = $v;
+        opt_fn($rng, $o, $k, v, $a)
+    }};
+}
+
+fn s(x: &str) -> J {
+    J::Str(x.to_string())
+}
+
+fn t(x: &str) -> J {
+    J::Text(x.to_string())
+}
+
+const STATUS: &[&str] = &["created", "started", "aborted", "mate", "resign", "stalemate", "timeout", "draw", "outoftime", "cheat", "noStart", "unknownFinish", "variantEnd"];
+const VARIANT: &[&str] = &["standard", "crazyhouse", "chess960", "fromPosition", "kingOfTheHill", "threeCheck", "antichess", "atomic", "horde", "racingKings"];
+const SPEED: &[&str] = &["ultraBullet", "bullet", "blitz", "rapid", "classical", "correspondence"];
+const PERF: &[&str] = &["ultraBullet", "bullet", "blitz", "rapid", "classical", "correspondence", "standard", "chess960", "kingOfTheHill", "antichess", "atomic", "threeCheck", "racingKings", "crazyhouse", "puzzle"];
+const SOURCE: &[&str] = &["lobby", "friend", "ai", "api", "arena", "position", "import", "importlive", "simul", "relay", "pool", "swiss"];
+const CH_STATUS: &[&str] = &["created", "offline", "canceled", "declined", "accepted"];
+const DECLINE: &[&str] = &["generic", "later", "toofast", "tooslow", "timecontrol", "rated", "casual", "standard", "variant", "nobot", "onlybot"];
+const RULES: &[&str] = &["noAbort", "noRematch", "noGiveTime", "noClaimWin", "noEarlyDraw"];
+const TEXTS: &[&str] = &["hello", "gg wp", "say \"hi\"", "back\\slash", "line\nbreak", "tab\there", "héllo wörld", "日本語", "emoji 😀 pair", "a/b", "", " ", "{\"type\":\"x\"}", "null", "O-O"];
+
+fn pick<'a>(rng: &mut StdRng, v: &'a [&'a str]) -> &'a str {
+    v.choose(rng).unwrap()
+}
+
+/// add `key: value` unless the optional field is dropped; absent fields are sometimes written as null
+fn opt_fn(rng: &mut StdRng, obj: &mut Vec<(String, J)>, key: &str, v: J, absent: &mut Vec<String>) {
+    match rng.gen_range(0..10) {
+        0..=4 => obj.push((key.to_string(), v)),
+        5 => {
+            obj.push((key.to_string(), J::Null));
+            absent.push(key.to_string());
+        }
+        _ => absent.push(key.to_string()),
+    }
+}
+
+fn num32(rng: &mut StdRng) -> u64 {
+    match rng.gen_range(0..6) { 0 => 0, 1 => 1, 2 => u32::MAX as u64, 3 => 60_000, _ => rng.gen_range(0..10_000_000) }
+}
+
+fn game_moves(rng: &mut StdRng) -> (Vec<String>, Pos) {
+    let n = match rng.gen_range(0..10) { 0 | 1 => 0, 2 => 1, 3 => rng.gen_range(150..300), _ => rng.gen_range(2..120) };
+    let policy = gen::POLICIES[rng.gen_range(0..3)];
+    let start = Pos::startpos();
+    let (_, ms) = gen::walk(rng, &start, policy, n);
+    (ms.iter().map(|m| m.uci()).collect(), start)
+}
+
+struct Doc {
+    shape: &'static str,
+    j: J,
+    moves: Option<Vec<String>>,
+    clocks: Option<[u64; 4]>,
+    status: Option<String>,
+}
+
+fn state_obj(rng: &mut StdRng, with_type: bool) -> (Vec<(String, J)>, Vec<String>, [u64; 4], String) {
+    let (moves, _) = game_moves(rng);
+    let clocks = [num32(rng), num32(rng), num32(rng), num32(rng)];
+    let status = pick(rng, STATUS).to_string();
+    let mut o = vec![];
+    if with_type {
+        o.push(("type".to_string(), s("gameState")));
+    }
+    // `moves` may be missing altogether (serde default) or the empty string
+    if !(moves.is_empty() && rng.gen_bool(0.5)) {
+        o.push(("moves".to_string(), J::Str(moves.join(" "))));
+    }
+    o.push(("wtime".to_string(), J::Num(clocks[0])));
+    o.push(("btime".to_string(), J::Num(clocks[1])));
+    o.push(("winc".to_string(), J::Num(clocks[2])));
+    o.push(("binc".to_string(), J::Num(clocks[3])));
+    o.push(("status".to_string(), s(&status)));
+    let mut absent = vec![];
+    opt!(rng, &mut o, "wdraw", J::Bool(rng.gen_bool(0.5)), &mut absent);
+    opt!(rng, &mut o, "bdraw", J::Bool(rng.gen_bool(0.5)), &mut absent);
+    opt!(rng, &mut o, "wtakeback", J::Bool(rng.gen_bool(0.5)), &mut absent);
+    opt!(rng, &mut o, "btakeback", J::Bool(rng.gen_bool(0.5)), &mut absent);
+    opt!(rng, &mut o, "winner", s(if rng.gen_bool(0.5) { "white" } else { "black" }), &mut absent);
+    opt!(rng, &mut o, "rematch", s("abcdEFGH"), &mut absent);
+    (o, moves, clocks, status)
+}
+
+fn player(rng: &mut StdRng) -> J {
+    let mut o = vec![("id".to_string(), s(pick(rng, &["bot_one", "some-user", "x"])))];
+    let mut a = vec![];
+    opt!(rng, &mut o, "aiLevel", J::Num(rng.gen_range(1..9)), &mut a);
+    opt!(rng, &mut o, "name", t(pick(rng, TEXTS)), &mut a);
+    opt!(rng, &mut o, "title", t(pick(rng, &["BOT", "GM", "IM", "WFM"])), &mut a);
+    opt!(rng, &mut o, "rating", J::Num(rng.gen_range(600..3300)), &mut a);
+    opt!(rng, &mut o, "provisional", J::Bool(rng.gen_bool(0.5)), &mut a);
+    J::Obj(o)
+}
+
+fn variant_full(rng: &mut StdRng) -> J {
+    J::Obj(vec![("key".into(), s(pick(rng, VARIANT))), ("name".into(), t(pick(rng, &["Standard", "Chess960", "King of the Hill"]))), ("short".into(), s(pick(rng, &["Std", "960", "KotH"])))])
+}
+
+fn game_state_doc(rng: &mut StdRng) -> Doc {
+    match rng.gen_range(0..4) {
+        0 => {
+            let with_type = rng.gen_bool(0.7);
+            let (st, moves, clocks, status) = state_obj(rng, with_type);
+            let mut o = vec![
+                ("type".to_string(), s("gameFull")),
+                ("id".to_string(), s("5IrD6Gzz")),
+                ("variant".to_string(), variant_full(rng)),
+                ("speed".to_string(), s(pick(rng, SPEED))),
+                ("perf".to_string(), J::Obj(vec![("name".into(), s(pick(rng, &["Blitz", "Bullet", "Rapid"])))])),
+                ("rated".to_string(), J::Bool(rng.gen_bool(0.5))),
+                ("createdAt".to_string(), J::Num(rng.gen_range(1_500_000_000_000..1_900_000_000_000))),
+                ("white".to_string(), player(rng)),
+                ("black".to_string(), player(rng)),
+                ("initialFen".to_string(), s(if rng.gen_bool(0.8) { "startpos" } else { "rnbqkbnr/pppppppp/8/8/8/8/PPPPPPPP/RNBQKBNR w KQkq - 0 1" })),
+                ("state".to_string(), J::Obj(st)),
+            ];
+            let mut a = vec![];
+            opt!(rng, &mut o, "clock", J::Obj(vec![("initial".into(), J::Num(num32(rng))), ("increment".into(), J::Num(num32(rng)))]), &mut a);
+            opt!(rng, &mut o, "daysPerTurn", J::Num(rng.gen_range(1..14)), &mut a);
+            opt!(rng, &mut o, "tournamentId", s("Qv0dRqml"), &mut a);
+            Doc { shape: "gameFull", j: J::Obj(o), moves: Some(moves), clocks: Some(clocks), status: Some(status) }
+        }
+        1 => {
+            let (st, moves, clocks, status) = state_obj(rng, true);
+            Doc { shape: "gameState", j: J::Obj(st), moves: Some(moves), clocks: Some(clocks), status: Some(status) }
+        }
+        2 => Doc { shape: "chatLine", j: J::Obj(vec![("type".into(), s("chatLine")), ("room".into(), s(if rng.gen_bool(0.5) { "player" } else { "spectator" })), ("username".into(), t(pick(rng, TEXTS))), ("text".into(), t(pick(rng, TEXTS)))]), moves: None, clocks: None, status: None },
+        _ => {
+            let mut o = vec![("type".to_string(), s("opponentGone")), ("gone".to_string(), J::Bool(rng.gen_bool(0.5)))];
+            let mut a = vec![];
+            opt!(rng, &mut o, "claimWinInSeconds", J::Num(rng.gen_range(0..120)), &mut a);
+            Doc { shape: "opponentGone", j: J::Obj(o), moves: None, clocks: None, status: None }
+        }
+    }
+}
+
+fn compat(rng: &mut StdRng) -> J {
+    J::Obj(vec![("bot".into(), J::Bool(rng.gen_bool(0.5))), ("board".into(), J::Bool(rng.gen_bool(0.5)))])
+}
+
+fn game_event_info(rng: &mut StdRng) -> J {
+    let mut opp = vec![("id".to_string(), s("philippe")), ("username".to_string(), t(pick(rng, TEXTS)))];
+    let mut a = vec![];
+    opt!(rng, &mut opp, "rating", J::Num(rng.gen_range(600..3300)), &mut a);
+    opt!(rng, &mut opp, "ratingDiff", J::Int(rng.gen_range(-40..40)), &mut a);
+    opt!(rng, &mut opp, "ai", J::Num(rng.gen_range(1..9)), &mut a);
+    let mut o = vec![
+        ("fullId".to_string(), s("rCRw1AuOvonq")),
+        ("gameId".to_string(), s("rCRw1AuO")),
+        ("fen".to_string(), s("r1bqkbnr/pppp2pp/2n1pp2/8/8/3PP3/PPPB1PPP/RN1QKBNR w KQkq - 2 4")),
+        ("color".to_string(), s(if rng.gen_bool(0.5) { "white" } else { "black" })),
+        ("lastMove".to_string(), s(pick(rng, &["b8c6", "", "e7e8q"]))),
+        ("source".to_string(), s(pick(rng, SOURCE))),
+        ("status".to_string(), J::Obj(vec![("id".into(), J::Num(rng.gen_range(10..60))), ("name".into(), s(pick(rng, STATUS)))])),
+        ("variant".to_string(), J::Obj(vec![("key".into(), s(pick(rng, VARIANT))), ("name".into(), s("Standard"))])),
+        ("speed".to_string(), s(pick(rng, SPEED))),
+        ("perf".to_string(), s(pick(rng, PERF))),
+        ("rated".to_string(), J::Bool(rng.gen_bool(0.5))),
+        ("hasMoved".to_string(), J::Bool(rng.gen_bool(0.5))),
+        ("opponent".to_string(), J::Obj(opp)),
+    ];
+    opt!(rng, &mut o, "secondsLeft", J::Num(num32(rng)), &mut a);
+    opt!(rng, &mut o, "tournamentId", s("abc"), &mut a);
+    opt!(rng, &mut o, "swissId", s("swi"), &mut a);
+    opt!(rng, &mut o, "orientation", s(if rng.gen_bool(0.5) { "white" } else { "black" }), &mut a);
+    opt!(rng, &mut o, "winner", s(if rng.gen_bool(0.5) { "white" } else { "black" }), &mut a);
+    opt!(rng, &mut o, "ratingDiff", J::Int(rng.gen_range(-40..40)), &mut a);
+    opt!(rng, &mut o, "compat", compat(rng), &mut a);
+    J::Obj(o)
+}
+
+fn challenger(rng: &mut StdRng) -> J {
+    let mut o = vec![("id".to_string(), s("lovlas")), ("name".to_string(), t(pick(rng, TEXTS))), ("rating".to_string(), J::Num(rng.gen_range(600..3300)))];
+    let mut a = vec![];
+    opt!(rng, &mut o, "title", s("IM"), &mut a);
+    opt!(rng, &mut o, "provisional", J::Bool(rng.gen_bool(0.5)), &mut a);
+    opt!(rng, &mut o, "patron", J::Bool(rng.gen_bool(0.5)), &mut a);
+    opt!(rng, &mut o, "online", J::Bool(rng.gen_bool(0.5)), &mut a);
+    opt!(rng, &mut o, "lag", J::Num(rng.gen_range(0..500)), &mut a);
+    J::Obj(o)
+}
+
+fn challenge_info(rng: &mut StdRng) -> J {
+    let tc = match rng.gen_range(0..3) {
+        0 => J::Obj(vec![("type".into(), s("clock")), ("limit".into(), J::Num(num32(rng))), ("increment".into(), J::Num(num32(rng))), ("show".into(), t("5+2"))]),
+        1 => J::Obj(vec![("type".into(), s("correspondence")), ("daysPerTurn".into(), J::Num(rng.gen_range(1..14)))]),
+        _ => J::Obj(vec![("type".into(), s("unlimited"))]),
+    };
+    let mut o = vec![
+        ("id".to_string(), s("7pGLxJ4F")),
+        ("url".to_string(), t("https://lichess.org/VU0nyvsW")),
+        ("status".to_string(), s(pick(rng, CH_STATUS))),
+        ("variant".to_string(), variant_full(rng)),
+        ("rated".to_string(), J::Bool(rng.gen_bool(0.5))),
+        ("speed".to_string(), s(pick(rng, SPEED))),
+        ("timeControl".to_string(), tc),
+        ("color".to_string(), s(pick(rng, &["random", "white", "black"]))),
+        ("finalColor".to_string(), s(if rng.gen_bool(0.5) { "white" } else { "black" })),
+        ("perf".to_string(), J::Obj(vec![("icon".into(), t(pick(rng, &["#", "\u{e008}", ")"]))), ("name".into(), s("Rapid"))])),
+    ];
+    let mut a = vec![];
+    opt!(rng, &mut o, "challenger", challenger(rng), &mut a);
+    opt!(rng, &mut o, "destUser", challenger(rng), &mut a);
+    opt!(rng, &mut o, "rematchOf", s("abcd1234"), &mut a);
+    opt!(rng, &mut o, "direction", s(if rng.gen_bool(0.5) { "in" } else { "out" }), &mut a);
+    opt!(rng, &mut o, "initialFen", s("rnbqkbnr/pppppppp/8/8/8/8/PPPPPPPP/RNBQKBNR w KQkq - 0 1"), &mut a);
+    opt!(rng, &mut o, "declineReason", s(pick(rng, DECLINE)), &mut a);
+    if rng.gen_bool(0.5) {
+        let mut r: Vec<&str> = RULES.to_vec();
+        r.shuffle(rng);
+        r.truncate(rng.gen_range(1..=5));
+        o.push(("rules".to_string(), J::Str(r.join(","))));
+    }
+    J::Obj(o)
+}
+
+fn event_doc(rng: &mut StdRng) -> Doc {
+    let (shape, j) = match rng.gen_range(0..5) {
+        0 => ("gameStart", J::Obj(vec![("type".into(), s("gameStart")), ("game".into(), game_event_info(rng))])),
+        1 => ("gameFinish", J::Obj(vec![("type".into(), s("gameFinish")), ("game".into(), game_event_info(rng))])),
+        2 => {
+            let mut o = vec![("type".to_string(), s("challenge")), ("challenge".to_string(), challenge_info(rng))];
+            let mut a = vec![];
+            opt!(rng, &mut o, "compat", compat(rng), &mut a);
+            ("challenge", J::Obj(o))
+        }
+        3 => ("challengeCanceled", J::Obj(vec![("type".into(), s("challengeCanceled")), ("challenge".into(), challenge_info(rng))])),
+        _ => ("challengeDeclined", J::Obj(vec![("type".into(), s("challengeDeclined")), ("challenge".into(), challenge_info(rng))])),
+    };
+    Doc { shape, j, moves: None, clocks: None, status: None }
+}
+
+/// every path of the source document must be present with the same value in the re-encoded one;
+/// `moves` / `rules` are strings in the source and lists after decoding.
+fn compare_paths(src: &Value, enc: &Value, path: &str, out: &mut Vec<String>) {
+    match src {
+        Value::Object(m) => {
+            for (k, v) in m {
+                let p = format!("{}.{}", path, k);
+                // the nested `type` tag of `state` is not part of the model
+                if k == "type" && path.ends_with(".state") {
+                    continue;
+                }
+                match enc.get(k) {
+                    None => {
+                        if !v.is_null() {
+                            out.push(format!("{} dropped (source {})", p, short(v)));
+                        }
+                    }
+                    Some(e) => {
+                        if k == "moves" && v.is_string() {
+                            let want: Vec<Value> = v.as_str().unwrap().split(' ').filter(|t| !t.is_empty()).map(|t| Value::String(t.to_string())).collect();
+                            if e != &Value::Array(want) {
+                                out.push(format!("{} decoded to {}", p, short(e)));
+                            }
+                        } else if k == "rules" && v.is_string() {
+                            let want: Vec<Value> = v.as_str().unwrap().split(',').map(|t| Value::String(t.to_string())).collect();
+                            if e != &Value::Array(want) {
+                                out.push(format!("{} decoded to {}", p, short(e)));
+                            }
+                        } else {
+                            compare_paths(v, e, &p, out);
+                        }
+                    }
+                }
+            }
+        }
+        _ => {
+            if src != enc {
+                out.push(format!("{}: source {} decoded {}", path, short(src), short(enc)));
+            }
+        }
+    }
+}
+
+fn short(v: &Value) -> String {
+    v.to_string().chars().take(80).collect()
+}
+
+fn check_doc(rng: &mut StdRng, d: &Doc, is_event: bool, rep: &mut Report) {
+    let shuffle = rng.gen_bool(0.6);
+    let fancy = rng.gen_bool(0.5);
+    let mut text = String::new();
+    write(rng, &d.j, shuffle, fancy, &mut text);
+    rep.eval();
+    rep.count(&format!("shape_{}", d.shape));
+    if shuffle { rep.count("key_order_shuffled"); }
+    if fancy { rep.count("with_json_escapes"); }
+    let replay = json!({"kind":"c19","stream": if is_event {"event"} else {"game"},"document":text});
+    let src: Value = match serde_json::from_str(&text) {
+        Ok(v) => v,
+        Err(e) => { rep.inconclusive(&format!("generator wrote invalid JSON: {}", e)); return; }
+    };
+    rep.distinct_str(&text);
+    let t2 = text.clone();
+    let decoded: Result<Result<Value, String>, String> = if is_event {
+        guarded(move || serde_json::from_str::<BotEvent>(&t2).map_err(|e| e.to_string()).and_then(|v| serde_json::to_value(&v).map_err(|e| e.to_string())))
+    } else {
+        guarded(move || serde_json::from_str::<BotGameState>(&t2).map_err(|e| e.to_string()).and_then(|v| serde_json::to_value(&v).map_err(|e| e.to_string())))
+    };
+    let enc = match decoded {
+        Err(pm) => { rep.violation(&format!("decode-{}", panic_sig(&pm)), format!("decoding {} panicked: {} :: {}", d.shape, pm, text.chars().take(300).collect::<String>()), replay); return; }
+        Ok(Err(e)) => {
+            let what: String = e.chars().filter(|c| !c.is_ascii_digit()).take(40).collect();
+            rep.violation(&format!("decode-error:{}:{}", d.shape, what.trim()), format!("{} not decoded: {} :: {}", d.shape, e, text.chars().take(400).collect::<String>()), replay);
+            return;
+        }
+        Ok(Ok(v)) => v,
+    };
+    let mut diffs = Vec::new();
+    compare_paths(&src, &enc, "$", &mut diffs);
+    if !diffs.is_empty() {
+        let first = diffs[0].split(' ').next().unwrap_or("").to_string();
+        rep.violation(&format!("content-differs:{}:{}", d.shape, first), format!("{}: {}", d.shape, diffs.join("; ")).chars().take(600).collect(), replay.clone());
+    }
+    // direct checks on the fields the bot uses
+    if let Some(moves) = &d.moves {
+        let t3 = text.clone();
+        let r = guarded(move || {
+            let st = match serde_json::from_str::<BotGameState>(&t3) {
+                Ok(BotGameState::GameFull { state, .. }) => state,
+                Ok(BotGameState::GameState { state }) => state,
+                _ => return Err("wrong variant".to_string()),
+            };
+            let status = serde_json::to_value(&st.status).map(|v| v.as_str().unwrap_or("").to_string()).unwrap_or_default();
+            // what the bot does with the list
+            let mut bad_move = None;
+            for m in &st.moves {
+                if UciMove::from_str(m).is_err() { bad_move = Some(m.clone()); break; }
+            }
+            let mut bb = Bitboard::default();
+            let mut replay_err = None;
+            for (i, m) in st.moves.iter().enumerate() {
+                if bb.make_uci(m).is_err() { replay_err = Some(i); break; }
+            }
+            Ok((st.moves.clone(), [st.wtime as u64, st.btime as u64, st.winc as u64, st.binc as u64], status, bad_move, replay_err))
+        });
+        match r {
+            Err(pm) => rep.violation(&format!("moves-{}", panic_sig(&pm)), format!("{}", pm), replay.clone()),
+            Ok(Err(e)) => rep.violation("state-not-accessible", e, replay.clone()),
+            Ok(Ok((got_moves, clocks, status, bad_move, replay_err))) => {
+                rep.add("moves_decoded", got_moves.len() as u64);
+                rep.max("max_moves_in_document", got_moves.len() as u64);
+                if moves.is_empty() { rep.count("documents_with_no_moves"); }
+                if &got_moves != moves {
+                    rep.violation(&format!("moves-differ:{}", d.shape), format!("decoded {} moves, document has {}", got_moves.len(), moves.len()), replay.clone());
+                }
+                if Some(clocks) != d.clocks {
+                    rep.violation("clocks-differ", format!("decoded {:?}, document {:?}", clocks, d.clocks), replay.clone());
+                }
+                if Some(&status) != d.status.as_ref() {
+                    rep.violation("status-differs", format!("decoded {:?}, document {:?}", status, d.status), replay.clone());
+                }
+                if let Some(m) = bad_move { rep.violation("move-not-accepted-by-uci-parser", format!("{:?}", m), replay.clone()); }
+                if let Some(i) = replay_err { rep.violation("moves-do-not-replay", format!("move index {}", i), replay.clone()); }
+            }
+        }
+    }
+    if rep.samples.len() < 6 && rng.gen_range(0..3000) == 0 {
+        rep.sample(json!({"shape": d.shape, "document": text.chars().take(700).collect::<String>()}));
+    }
+}
+
+fn main() {
+    let args = Args::parse();
+    monlib::quiet_panics();
+    let mut rep = Report::new("C19");
+    if let Some(path) = &args.replay {
+        let case = monlib::read_replay(path);
+        let case = if case.get("case").is_some() { case["case"].clone() } else { case };
+        let text = case["document"].as_str().unwrap_or("").to_string();
+        let is_event = case["stream"].as_str() == Some("event");
+        let src: Value = serde_json::from_str(&text).expect("replay document is JSON");
+        let enc = if is_event { serde_json::from_str::<BotEvent>(&text).map_err(|e| e.to_string()).and_then(|v| serde_json::to_value(&v).map_err(|e| e.to_string())) } else { serde_json::from_str::<BotGameState>(&text).map_err(|e| e.to_string()).and_then(|v| serde_json::to_value(&v).map_err(|e| e.to_string())) };
+        match enc {
+            Err(e) => rep.violation("decode-error", e, case.clone()),
+            Ok(enc) => {
+                let mut d = Vec::new();
+                compare_paths(&src, &enc, "$", &mut d);
+                if !d.is_empty() { rep.violation("content-differs", d.join("; "), case.clone()); }
+            }
+        }
+        println!("replay: {} violation(s)", rep.violation_count);
+        for v in &rep.violations { println!("  {} :: {}", v.sig, v.detail); }
+        std::process::exit(if rep.violation_count > 0 { 1 } else { 0 });
+    }
+    let mut rng = gen::rng(args.seed, args.shard, 19);
+    let n = args.budget(200_000, 4_000_000) / args.nshards.max(1);
+    for i in 0..n {
+        if i % 2 == 0 {
+            let d = game_state_doc(&mut rng);
+            check_doc(&mut rng, &d, false, &mut rep);
+        } else {
+            let d = event_doc(&mut rng);
+            check_doc(&mut rng, &d, true, &mut rep);
+        }
+    }
+    rep.extra.insert("seed".into(), json!(args.seed));
+    rep.finish(&args);
+}
